@@ -6,7 +6,10 @@ EXTENDS Monitors
 CONSTANTS
     EnvOps,      \* set of API operation records offered by the environment
     EnvActs,     \* set of act records callbacks may perform
+    EnvPoints,   \* set of <<callback, state>> pairs (state ANY = any scope) at which callbacks may act at all
     MaxActs      \* maximum number of acts per callback delivery
+
+ANY == 999
 
 VARIABLES st, out,
           tk, bad       \* monitors folded over the events of the behaviour (ghost)
@@ -33,8 +36,10 @@ DoCall == /\ Idle(st)
                 /\ InContract(st, o)
                 /\ LET res == CallStep(st, o) IN st' = res.st /\ out' = res.out
 
+MayAct(f) == <<f.m, f.x>> \in EnvPoints \/ <<f.m, ANY>> \in EnvPoints \/ <<ANY, ANY>> \in EnvPoints
+
 DoCb == /\ AtCallback(st)
-        /\ \E acts \in ActSeqs(CtrlKind(Head(st.k).m), Head(st.k).x) :
+        /\ \E acts \in (IF MayAct(Head(st.k)) THEN ActSeqs(CtrlKind(Head(st.k).m), Head(st.k).x) ELSE {<<>>}) :
               LET res == CbStep(st, acts) IN st' = res.st /\ out' = res.out
 
 DoRet == /\ AtReturn(st)
@@ -47,7 +52,7 @@ DoInternal == /\ AtInternal(st)
 Next == (DoCall \/ DoCb \/ DoRet \/ DoInternal) /\ Fold
 
 Spec == Init /\ [][Next]_vars
-FairSpec == Spec /\ WF_vars(DoCb \/ DoRet \/ DoInternal)
+FairSpec == Spec /\ WF_vars((DoCb \/ DoRet \/ DoInternal) /\ Fold)
 
 StView == <<st, tk, bad>>
 
@@ -56,9 +61,87 @@ MonitorsQuiet == bad = {}
 NoInj == [i \in 1 .. (N + 1) |-> 0]
 AllDef == [i \in 1 .. (N + 1) |-> 32766]
 A(k, a, b, p) == [k |-> k, a |-> a, b |-> b, p |-> p]
-SmokeOps == {Op("ctor", 0, 0, 0), Op("dtor", 0, 0, 0), Op("update", 0, 0, 0)} \cup {Op("ito", d, 0, 0) : d \in States}
-            \cup {Op("pc", 0, 1, 0), Op("succeed", 0, 0, 0)}
+O(op) == Op(op, 0, 0, 0)
+AllPoints == {<<ANY, ANY>>}
+
+\* ---- environments (selected by the .cfg files)
+SmokeOps == {O("ctor"), O("dtor"), O("update")} \cup {Op("ito", d, 0, 0) : d \in States} \cup {Op("pc", 0, 1, 0), Op("succeed", 0, 0, 0)}
 SmokeActs == {A("T", d, 0, 0) : d \in States} \cup {A("X", 0, 0, 0), A("S", NONE, 0, 0)}
+
+\* requests and guards: every request source, every guard decision over successive rounds
+GuardOpsQ == {O("ctor"), O("dtor"), O("enter"), O("exit"), O("update")} \cup {Op("ito", d, 0, 0) : d \in States}
+TinyOps == {O("ctor"), O("dtor"), O("update"), Op("ito", 1, 0, 0)}
+TinyActs == {A("T", 0, 0, 0), A("X", 0, 0, 0)}
+GuardOps == {O("ctor"), O("dtor"), O("enter"), O("exit"), O("update")} \cup {Op("ito", d, 0, 0) : d \in States} \cup {Op("to", d, 0, 0) : d \in States}
+GuardActs == {A("T", d, 0, 0) : d \in States} \cup {A("X", 0, 0, 0)}
+GuardPoints == {<<M_UPDATE, ANY>>, <<M_ENTRY_GUARD, ANY>>, <<M_EXIT_GUARD, ANY>>}
+
+\* plans: every plan content, status pattern, outcome
+PlanOps == {O("ctor"), O("update"), O("px")} \cup {Op("pc", o, d, 0) : o \in States, d \in States}
+           \cup {Op("succeed", s, 0, 0) : s \in States} \cup {Op("fail", s, 0, 0) : s \in States} \cup {Op("ito", d, 0, 0) : d \in States}
+PlanActs == {A("S", NONE, 0, 0), A("F", NONE, 0, 0), A("X", 0, 0, 0)} \cup {A("S", s, 0, 0) : s \in States}
+PlanPoints == {<<M_UPDATE, ANY>>, <<M_POST_UPDATE, NONE>>, <<M_ENTRY_GUARD, ANY>>}
+PlanOpsQ == {O("ctor"), O("update")} \cup {Op("pc", o, d, 0) : o \in States, d \in States} \cup {Op("succeed", 0, 0, 0), Op("fail", 1, 0, 0), Op("ito", 1, 0, 0)}
+PlanActsQ == {A("S", NONE, 0, 0), A("F", NONE, 0, 0), A("X", 0, 0, 0)}
+PlanPointsQ == {<<M_UPDATE, ANY>>, <<M_ENTRY_GUARD, ANY>>}
+
+\* manual activation, serialization, replay
+SerialOps == {O("ctor"), O("dtor"), O("enter"), O("exit"), O("save"), O("update"), Op("rt", NONE, 0, 0)}
+             \cup {Op("load", x, 0, 0) : x \in {0} \cup {1 + 2 * s : s \in States}}
+             \cup {Op("rt", d, 0, 0) : d \in States} \cup {Op("re", d, 0, 0) : d \in States} \cup {Op("ito", d, 0, 0) : d \in States}
+             \cup {Op("pc", 0, 1, 0), Op("to", 1, 0, 0)}
+SerialActs == {A("T", d, 0, 0) : d \in States} \cup {A("X", 0, 0, 0), A("PC", 1, 0, 0)}
+SerialPoints == {<<M_ENTRY_GUARD, ANY>>, <<M_ENTER, ANY>>, <<M_UPDATE, ANY>>}
+
+\* payloads: payload-carrying and payload-free requests from every source
+PayOps == {O("ctor"), O("update")} \cup {Op("iwith", d, 0, p) : d \in States, p \in 1 .. 2} \cup {Op("ito", d, 0, 0) : d \in States}
+          \cup {Op("with", d, 0, p) : d \in States, p \in 1 .. 2} \cup {Op("pw", o, d, 1) : o \in States, d \in States} \cup {Op("succeed", s, 0, 0) : s \in States}
+PayActs == {A("W", d, 0, 2) : d \in States} \cup {A("T", d, 0, 0) : d \in States} \cup {A("X", 0, 0, 0)}
+PayPoints == {<<M_UPDATE, ANY>>, <<M_ENTRY_GUARD, ANY>>}
+PayOpsQ == {O("ctor"), O("update"), Op("iwith", 1, 0, 1), Op("iwith", 0, 0, 2), Op("ito", 1, 0, 0), Op("with", 0, 0, 1), Op("pw", 0, 1, 1), Op("pw", 1, 0, 2), Op("succeed", 0, 0, 0), Op("succeed", 1, 0, 0)}
+PayActsQ == {A("W", 0, 0, 2), A("W", 1, 0, 1), A("T", 1, 0, 0), A("X", 0, 0, 0)}
+
+\* logging: attach / detach, sparse classes
+LogOps == {O("ctor"), Op("ctor", 0, 0, 1), O("dtor"), O("update"), Op("react", 1, 0, 0), Op("query", 1, 0, 0), Op("attach", 0, 0, 0), Op("attach", 1, 0, 0)}
+          \cup {Op("ito", d, 0, 0) : d \in States} \cup {Op("pc", 0, 1, 0), Op("succeed", 0, 0, 0), Op("fail", 0, 0, 0)}
+LogActs == {A("T", 1, 0, 0), A("X", 0, 0, 0), A("S", NONE, 0, 0), A("F", NONE, 0, 0)}
+LogPoints == {<<M_UPDATE, ANY>>, <<M_ENTRY_GUARD, ANY>>, <<M_REACT, ANY>>}
+SparseDef == [i \in 1 .. (N + 1) |-> IF i = 1 THEN 18450 ELSE IF i = 2 THEN 32766 ELSE IF i = 3 THEN 2084 ELSE 0]
+Inj2 == [i \in 1 .. (N + 1) |-> IF i = 1 THEN 1 ELSE IF i = 2 THEN 2 ELSE IF i = 3 THEN 1 ELSE 0]
+
+-----------------------------------------------------------------------------
+(* Reachability witnesses: each must be VIOLATED (the situation it negates is *)
+(* reachable), otherwise the invariants above would hold vacuously.           *)
+W_Deactivated          == ~(tk.op = "dtor" /\ ~tk.incall /\ ~tk.alive)
+W_ReenterByLoad        == ~(tk.op = "load" /\ \E s \in States : tk.life = <<<<M_REENTER, s>>>>)
+W_LaterRequestReplaces == ~(IsProcOp(tk.op) /\ ~tk.incall /\ tk.rounds >= 2 /\ tk.surv # NoT /\ Cardinality(tk.passed) >= 2)
+W_ReenterApplied       == ~(IsProcOp(tk.op) /\ \E s \in States : tk.life = <<<<M_REENTER, s>>>>)
+W_VetoAfterRedirect    == ~(IsProcOp(tk.op) /\ tk.rounds >= 2 /\ tk.inround /\ tk.rcancel /\ tk.surv # NoT)
+W_ExitGuardCancels     == ~(IsProcOp(tk.op) /\ tk.inround /\ tk.rcancel /\ tk.dm = M_EXIT_GUARD /\ tk.dpos > 0)
+W_LimitLeftover        == ~(st.k # <<>> /\ Head(st.k).t = "pr_fin" /\ st.rounds = L /\ st.request # NoT)
+W_RequestInPhase       == ~(tk.stage = "phase" /\ tk.lastreq # NoT)
+W_GuardSeesAccepted    == ~(AtCallback(st) /\ Head(st.k).m \in {M_ENTRY_GUARD, M_EXIT_GUARD} /\ st.cur # NoT)
+W_TaskPayloadPending   == ~(st.pend # NoT /\ st.pend[3] # 0 /\ st.pend[1] # NONE)
+W_TaskFired            == ~(tk.fired # <<>>)
+W_Origin0Ahead         == ~(st.k # <<>> /\ Head(st.k).t = "planstep" /\ Len(st.plan) >= 2 /\ st.plan[1][1] = 0 /\ st.active \notin {0, NONE}
+                            /\ st.active \in st.succ /\ st.plan[2][1] = st.active)
+W_PlanFailed           == ~(tk.outcome = 2)
+W_PlanSucceeded        == ~(tk.outcome = 1)
+W_PlanFull             == ~(Len(st.plan) = Cap)
+W_Replayed             == ~(tk.op = "rt" /\ ~tk.incall /\ tk.oa # NONE /\ Len(tk.life) = 2)
+W_LoadDeactivates      == ~(tk.op = "load" /\ ~tk.incall /\ tk.oa = 0 /\ tk.life # <<>>)
+W_InjectedExit         == ~(AtCallback(st) /\ Head(st.k).m = M_EXIT /\ Head(st.k).j = 2)
+W_LoggedCancel         == ~(st.logger /\ st.cancelled)
+
+\* every call returns (checked under weak fairness of the library's own steps and the callbacks' returns)
+Terminates == ~Idle(st) ~> Idle(st)
+
+\* direct state invariants
+RoundsBounded == st.rounds <= L
+IdleClean == Idle(st) => st.requested = NONE /\ st.pend = NoT /\ st.sub = 0 /\ st.pendlog = <<>>
+ActivityConsistent == Idle(st) => (st.active # NONE => st.alive) /\ (~Manual /\ st.alive => st.active # NONE)
+PlanWithinCapacity == Len(st.plan) <= Cap
+PrevNamesActive == Idle(st) /\ st.prev # NoT /\ st.active # NONE => st.prev[2] = st.active \/ tk.op \in PassiveOps
 
 -----------------------------------------------------------------------------
 TypeOK ==
